@@ -96,4 +96,22 @@ theorem parseKidsS_eq (e : BEnv) (cfg : ParserConfig) :
 
 end
 
+/-- over a shared context the parser returns what the pure
+parser returns on the context as it stood when the call began, and hands the context on. -/
+theorem parseRootS_eq (e : BEnv) (cfg : ParserConfig) (clazz : ClassId) (t : Tree) (Γ : Ctx) :
+    parseRootS e cfg clazz t Γ = (parseRoot e Γ cfg clazz t, Γ) := by
+  obtain ⟨q, a, n, text, c, tl⟩ := t
+  simp only [parseRootS, parseRoot, bind, Except.bind]
+  cases xsiTypeOf e a n with
+  | error err => rfl
+  | ok xt =>
+    simp only
+    cases Γ.fetch clazz none xt with
+    | error err => rfl
+    | ok m =>
+      simp only [parseNodeS_eq]
+      cases parseNode e Γ cfg _ (Tree.node q a n text c tl) with
+      | error err => rfl
+      | ok out => rfl
+
 end Proofs.C10Shared
